@@ -80,6 +80,13 @@ def parse_ahb_only(s):
 async def validity(s):
     import ahb
     from ahbicht.content_evaluation import is_valid_expression
+    # history: the verdict for s must not depend on what was asked before - in particular not on strings that differ from s only in white space
+    # or in the case of letters (such strings are asked first; their own verdicts are not judged here)
+    for other in {"".join(s.split()), " ".join(s.split()), s.upper()} - {s}:
+        try:
+            await is_valid_expression(other, ahb.set_cer)
+        except BaseException:  # pylint:disable=broad-except  # noqa: BLE001
+            pass
     try:
         r = await is_valid_expression(s, ahb.set_cer)
         return "returned", r
